@@ -204,7 +204,7 @@ func cmdCheck(args []string) int {
 		}
 		w.rep = rep
 		ex.mu.Lock()
-		neg := ex.tb.And(ob.PC, ex.tb.Not(ob.Claim))
+		neg := ex.tb.And(ob.PC, ex.tb.Not(ex.tb.SimplifyUnder(ob.PC, ob.Claim)))
 		if neg.IsFalse() {
 			ex.mu.Unlock()
 			rep.Status = "discharged"
